@@ -232,6 +232,13 @@ def check_item(case, pre_thy, pre_sig, H):
     adversarial = family.startswith(ADVERSARIAL_PREFIX)
     klass = ['ty:' + ty, 'family:%s:%s' % (ty, family)]
 
+    reported = set()
+
+    def V(sig, detail):
+        if sig not in reported:      # once per case (the edit form is exercised with two line lengths)
+            reported.add(sig)
+            H.violation(sig, case, detail)
+
     def done(outcome, nontrivial):
         H.case(case, nontrivial, klass + ['outcome:%s:%s' % (ty, outcome)], sample=len(harness.canon(case)) < 1500)
 
@@ -266,14 +273,14 @@ def check_item(case, pre_thy, pre_sig, H):
         cs = [e for e in exts if e.ty == L.CONSTANT]
         ts = [e for e in exts if e.ty == L.THEOREM]
         if len(cs) != 1 or len(ts) != 1:
-            H.violation('def:extension-shape', case, 'a definition must add one constant and one theorem, got %s' % (exts,))
+            V('def:extension-shape', 'a definition must add one constant and one theorem, got %s' % (exts,))
         else:
             try:
                 declT = ref.from_type(cs[0].T)
                 prop = ref.from_term(ts[0].th.prop)
                 hyps = list(ts[0].th.hyps)
             except Exception as e:
-                H.violation('def:extension-unreadable', case, repr(e))
+                V('def:extension-unreadable', repr(e))
                 declT = None
             if declT is not None:
                 verdict = L.judge_def(cs[0].name, declT, prop, pre_sig)
@@ -282,7 +289,7 @@ def check_item(case, pre_thy, pre_sig, H):
                 klass.append('judge:' + ('definitional' if not verdict else 'not-definitional'))
                 witness = L.exhibit_inconsistency(cs[0].name, declT, prop) if verdict else None
                 for cond, detail in verdict:
-                    H.violation('def:accepted-non-conservative:' + cond, case,
+                    V('def:accepted-non-conservative:' + cond,
                                 'accepted: %s :: %s with %s; %s%s' % (cs[0].name, ref.show_type(declT), ref.show(prop)[:400],
                                                                      detail, '; ' + witness if witness else ''))
                 if witness:
@@ -302,7 +309,7 @@ def check_item(case, pre_thy, pre_sig, H):
     for kind, detail in problems:
         if kind not in seen:
             seen.add(kind)
-            H.violation('ext:%s:%s' % (ty, kind), case, detail)
+            V('ext:%s:%s' % (ty, kind), detail)
 
     # ---- (c) round trips ------------------------------------------------------------------------------------
     def fresh_pre():
@@ -347,17 +354,17 @@ def check_item(case, pre_thy, pre_sig, H):
         # informational: saving an unchanged library item would rewrite its file entry (not a violation of the statement)
         H.note('library-file-entry-not-a-fixpoint-of-export_json:' + ty)
     if st == 'raised':
-        H.violation('roundtrip-json:%s:export-raises:%s' % (ty, _errname(j)), case, repr(j))
+        V('roundtrip-json:%s:export-raises:%s' % (ty, _errname(j)), repr(j))
     elif st == 'ok':
         try:
             j2 = json.loads(json.dumps(j))
         except Exception as e:
             j2 = None
-            H.violation('roundtrip-json:%s:not-serialisable' % ty, case, repr(e))
+            V('roundtrip-json:%s:not-serialisable' % ty, repr(e))
         if j2 is not None:
             st, item2 = _run(fresh_pre(), items.parse_item, j2)
             if st == 'raised':
-                H.violation('roundtrip-json:%s:parse-raises:%s' % (ty, _errname(item2)), case, '%r on %r' % (item2, j2))
+                V('roundtrip-json:%s:parse-raises:%s' % (ty, _errname(item2)), '%r on %r' % (item2, j2))
             elif st == 'ok':
                 compare('json', item2, 'parse_item(export_json())')
     # editor form: unicode, no highlight; line_length 80 is what the web client asks for, None what server.monitor uses
@@ -369,14 +376,14 @@ def check_item(case, pre_thy, pre_sig, H):
         st, disp = _run(post, display)
         how = 'parse_edit(get_display()) [unicode, line_length=%s]' % ll
         if st == 'raised':
-            H.violation('roundtrip-edit:%s:display-raises:%s' % (ty, _errname(disp)), case, '%s: %r' % (how, disp))
+            V('roundtrip-edit:%s:display-raises:%s' % (ty, _errname(disp)), '%s: %r' % (how, disp))
             continue
         if st != 'ok':
             continue
         st, item2 = _run(fresh_pre(), items.parse_edit, copy.deepcopy(disp))
         if st == 'raised':
             edit_raised = True
-            H.violation('roundtrip-edit:%s:parse-raises:%s' % (ty, _errname(item2)), case,
+            V('roundtrip-edit:%s:parse-raises:%s' % (ty, _errname(item2)),
                         '%s in the pre-item state (app/ide.check_modify loads the theory up to the item): %r on %r' % (
                             how, getattr(item2, 'str', item2), disp))
             if ty == 'type.ind':
@@ -386,7 +393,7 @@ def check_item(case, pre_thy, pre_sig, H):
                 thy2.get_data('type_sig')[raw['name']] = len(raw['args'])
                 st, item2 = _run(thy2, items.parse_edit, copy.deepcopy(disp))
                 if st == 'raised':
-                    H.violation('roundtrip-edit:%s:parse-raises-with-type-declared:%s' % (ty, _errname(item2)), case,
+                    V('roundtrip-edit:%s:parse-raises-with-type-declared:%s' % (ty, _errname(item2)),
                                 '%s: %r' % (how, getattr(item2, 'str', item2)))
                 elif st == 'ok':
                     copy_proof(item2)
@@ -401,7 +408,7 @@ def check_item(case, pre_thy, pre_sig, H):
         kinds.setdefault(kind, {}).setdefault(form, detail)
     for kind, forms in kinds.items():
         form = '+'.join(sorted(forms))
-        H.violation('roundtrip-%s:%s:%s' % (form, ty, kind), case, ' || '.join(forms[f] for f in sorted(forms)))
+        V('roundtrip-%s:%s:%s' % (form, ty, kind), ' || '.join(forms[f] for f in sorted(forms)))
 
     # ASCII edit form must at least re-parse (skipped when the unicode edit form already fails to re-parse)
     def display_ascii():
@@ -411,13 +418,13 @@ def check_item(case, pre_thy, pre_sig, H):
     if ty != 'type.ind' and not edit_failed:
         st, disp = _run(post, display_ascii)
         if st == 'raised':
-            H.violation('reparse-ascii:%s:display-raises:%s' % (ty, _errname(disp)), case, repr(disp))
+            V('reparse-ascii:%s:display-raises:%s' % (ty, _errname(disp)), repr(disp))
         elif st == 'ok':
             st, item2 = _run(fresh_pre(), items.parse_edit, copy.deepcopy(disp))
             if st == 'raised':
-                H.violation('reparse-ascii:%s:parse-raises:%s' % (ty, _errname(item2)), case, '%r on %r' % (item2, disp))
+                V('reparse-ascii:%s:parse-raises:%s' % (ty, _errname(item2)), '%r on %r' % (item2, disp))
             elif st == 'ok' and item2.error is not None:
-                H.violation('reparse-ascii:%s:%s' % (ty, _errname(item2.error)), case,
+                V('reparse-ascii:%s:%s' % (ty, _errname(item2.error)),
                             'ASCII edit form does not re-parse: %s on %r' % (str(item2.error)[:300], disp))
 
     check_eq_fields(item, ty, case, H)
@@ -1017,8 +1024,54 @@ QUICK_GEN = {'def-valid': 500, 'def-adv': 1300, 'thm': 450, 'fun': 250, 'pred': 
 LIB_CHUNK = 130
 
 
+def _d(name, T, prop):
+    return {'ty': 'def', 'name': name, 'type': T, 'prop': prop}
+
+
+# the classical cases, always run (hand-written; the generated families vary them)
+FIXED = [
+    ('logic_base', 'adv:self-same', _d('c', 'bool', 'c = (~c)')),
+    ('logic_base', 'adv:self-same', _d('c', 'bool => bool', 'c x = (~(c x))')),
+    ('logic_base', 'adv:self-instance', _d('c', "'a => bool", 'c x = (~((c::bool => bool) true))')),
+    ('logic_base', 'adv:self-general', _d('c', 'bool => bool', "c x = (~((c::'a => bool) (SOME y::'a. true)))")),
+    ('logic_base', 'adv:rhs-tyvar', _d('c', 'bool', "c = (!x::'a. !y. x = y)")),
+    ('logic_base', 'adv:lhs-const', _d('c', 'bool => bool', 'c true = false')),
+    ('logic_base', 'adv:lhs-compound', _d('c', 'bool => bool', 'c (~x) = x')),
+    ('logic_base', 'adv:lhs-svar', _d('c', 'bool => bool', 'c ?x = ?x')),
+    ('logic_base', 'adv:lhs-repeat', _d('c', 'bool => bool => bool', 'c x x = x')),
+    ('logic_base', 'adv:rhs-extra-var', _d('c', 'bool => bool', 'c x = y')),
+    ('logic_base', 'adv:rhs-extra-svar', _d('c', 'bool', 'c = ?y')),
+    ('logic_base', 'adv:name-exists', _d('true', 'bool', 'true = false')),
+    ('logic_base', 'adv:not-equation', _d('c', 'bool', 'c')),
+    ('logic_base', 'adv:wrong-head', _d('c', 'bool', 'd = c')),
+    ('nat', 'adv:overload-declared', _d('zero', 'nat', 'zero = (1::nat)')),
+    ('nat', 'adv:overload-declared', _d('plus', 'nat => nat => nat', 'plus m n = (0::nat)')),
+    ('nat', 'adv:overload-nomatch', _d('plus', 'nat => bool', 'plus m = true')),
+    ('nat', 'adv:overload-tyvar', _d('plus', "'b => 'b => 'b", 'plus x y = x')),
+    ('nat', 'overload-undeclared', _d('plus', 'bool => bool => bool', 'plus x y = (x | y)')),
+    ('nat', 'adv:overload-self', _d('plus', 'bool => bool => bool', 'plus x y = (~(plus x y))')),
+    ('logic_base', 'valid', _d('c', "'a => 'a => bool", 'c x y = (x = y)')),
+    ('logic_base', 'valid', _d('c', '(bool => bool) => bool', 'c f = (f true & f false)')),
+    ('nat', 'valid', _d('c', 'nat => nat', 'c n = n + 1')),
+    ('logic_base', 'adv:type-exists', {'ty': 'type.ind', 'name': 'bool', 'args': ['a'],
+                                       'constrs': [{'name': 'C0', 'args': ['l'], 'type': "'a => 'a bool"}]}),
+    ('logic_base', 'valid', {'ty': 'type.ind', 'name': 'tree', 'args': ['a'],
+                             'constrs': [{'name': 'Leaf', 'args': [], 'type': "'a tree"},
+                                         {'name': 'Node', 'args': ['l', 'x', 'r'],
+                                          'type': "'a tree => 'a => 'a tree => 'a tree"}]}),
+    ('nat', 'annotated-variable', {'ty': 'def.pred', 'name': 'p', 'type': 'nat => bool',
+                                   'rules': [{'name': 'p_intro', 'prop': "(f::'a => nat) x = n --> p n"}]}),
+    ('nat', 'valid', {'ty': 'def.pred', 'name': 'ev', 'type': 'nat => bool',
+                      'rules': [{'name': 'ev_0', 'prop': 'ev 0'}, {'name': 'ev_SS', 'prop': 'ev n --> ev (Suc (Suc n))'}]}),
+    ('nat', 'valid', {'ty': 'def.ind', 'name': 'dbl', 'type': 'nat => nat',
+                      'rules': [{'prop': 'dbl 0 = 0'}, {'prop': 'dbl (Suc n) = Suc (Suc (dbl n))'}]}),
+    ('logic_base', 'valid', {'ty': 'thm.ax', 'name': 'c11_ax', 'vars': {'A': 'bool', 'B': 'bool'}, 'prop': 'A & B --> B & A',
+                             'attributes': ['hint_backward']}),
+]
+
+
 def shards(tier):
-    out = []
+    out = [{'kind': 'fixed'}]
     for n in _S['order']:
         size = len(_S['raw'][n])
         for lo in range(0, size, LIB_CHUNK):
@@ -1042,6 +1095,10 @@ def lib_selected(tier, seed, name, index, raw):
 
 
 def run_shard(desc, seed, tier, H):
+    if desc['kind'] == 'fixed':
+        for thy, family, item in FIXED:
+            run_case({'theory': thy, 'limit': None, 'item': item, 'family': family}, H)
+        return
     if desc['kind'] == 'lib':
         basic, theory = _S['basic'], _S['theory']
         name = desc['theory']
